@@ -361,6 +361,34 @@ def explained_by_neutral_nterminus(ref, other, options):
     return True, {'displaced_particles': displaced, 'interactions_with_changed_length': nrows}
 
 
+def explained_by_single_residue_termini(ref, other):
+    """Is the only difference the charge of particles of one-residue molecule types (both terminal modifications set the charge of the
+    one backbone particle; which one is applied last follows the atom order)?"""
+    if ref['top']['molecules'] != other['top']['molecules'] or len(ref['pdb']['atoms']) != len(other['pdb']['atoms']):
+        return False, {}
+    rows = []
+    for n, r in ref['itps'].items():
+        o = other['itps'].get(n)
+        if o is None or len(r['atoms']) != len(o['atoms']) or r['nrexcl'] != o['nrexcl']:
+            return False, {}
+        single = len({row[2] for row in r['atoms']}) == 1
+        for x, y in zip(r['atoms'], o['atoms']):
+            if x == y:
+                continue
+            if not single or len(x) != len(y) or x[:6] != y[:6] or len(x) < 7 or x[7:] != y[7:]:
+                return False, {}
+            fx, fy = num(x[6]), num(y[6])
+            if fx is None or fy is None or {fx, fy} != {1.0, -1.0}:
+                return False, {}
+            rows.append([n, x[4], x[6], y[6]])
+        for sname in set(r['sections']) | set(o['sections']):
+            a = sorted((list(t), g) for t, g, _ in r['sections'].get(sname, []))
+            c = sorted((list(t), g) for t, g, _ in o['sections'].get(sname, []))
+            if len(a) != len(c) or any(g1 != g2 or not tokens_equal(t1, t2, False) for (t1, g1), (t2, g2) in zip(a, c)):
+                return False, {}
+    return bool(rows), {'particles': rows}
+
+
 def cases(tier, seed):
     rnd = harness.rng('C11plan', seed)
     out = []
@@ -418,6 +446,12 @@ def cases(tier, seed):
             # structure computed from the structure itself
             grp.update({'pdb': T1 + '3i40/3i40.pdb', 'options': ['-ff', 'martini3001', '-dssp', '-ignore', 'HOH'], 'restart_serials': True,
                         'presentations': [('permute', {'pstyle': 'random'}), ('reverse-file', {}), ('hashseed', {})]})
+        elif (tier == 'quick' and g == 5) or (tier != 'quick' and g % 12 == 7):
+            # a free amino acid: a chain of one residue, which is N-terminus and C-terminus at once (both terminal modifications meet on
+            # its one backbone particle)
+            grp.update({'pdb': 'verif:vf/gen/free_alanine.pdb', 'options': rnd.choice([['-ff', 'martini3001'], ['-ff', 'martini22']]),
+                        'presentations': [('hashseed', {}), ('permute', {'pstyle': 'reverse'}), ('rigid', {}), ('hashseed', {'n': 2})]})
+            grp['hashseed'] = rnd.choice([1, 2, 3, 4, 5])
         elif tier == 'quick' and g == 3:
             # a deposited structure with CONECT records between chains (disulfide bridges of insulin), its atom records reversed
             grp.update({'pdb': T1 + '3i40/3i40.pdb', 'options': ['-ff', 'martini3001', '-elastic', '-p', 'backbone'],
@@ -562,7 +596,7 @@ def rename_hydrogens_in_file(src, dst, hstyle):
 def run_case(params):
     b = harness.Batch()
     base = tempfile.mkdtemp(prefix='c11-')
-    pdb = util.test_data_path(params['pdb'])
+    pdb = os.path.join(harness.VERIF, params['pdb'][6:]) if params['pdb'].startswith('verif:') else util.test_data_path(params['pdb'])
     if params.get('split_first_residue'):
         split_first_residue(pdb, os.path.join(base, 'split.pdb'))
         pdb = os.path.join(base, 'split.pdb')
@@ -619,7 +653,7 @@ def run_case(params):
         for (kind, extra) in params['presentations']:
             b.total += 1
             d = os.path.join(base, kind + '-' + '-'.join(str(v) for v in extra.values()))
-            hs = params['hashseed'] if kind == 'hashseed' else 0
+            hs = params['hashseed'] + 5 * extra.get('n', 0) if kind == 'hashseed' else 0
             if kind == 'translate-file':
                 # the input FILE is translated (by whole thousandths of an Angstrom, so no coordinate is rounded): x moves below
                 # -100 A and y above 1000 A, where the coordinates fill all eight columns of their fields
@@ -680,6 +714,14 @@ def run_case(params):
                                 'a hydrogen whose name the force field does not know is bonded by distance to two heavy atoms, '
                                 'dropped and rebuilt without coordinates: particle positions depend on hydrogen names',
                                 dict(desc, detail=p[1], displaced_residues=sorted(moved), residues_with_such_hydrogens=sorted(suspects)))
+                    continue
+            if p and kind in ('permute', 'reverse-file'):
+                ok_, info_ = explained_by_single_residue_termini(ref, other)
+                if ok_ and not compare_coordinates(ref, other, record):
+                    b.violation('permute/one-residue-chain-charge-follows-atom-order',
+                                'a chain of one residue is both termini: the N-terminal and the C-terminal modification mapping both set the '
+                                'charge of its one backbone particle, and which is applied last follows the order of the atoms',
+                                dict(desc, detail=p[1], **info_))
                     continue
             if p and kind in ('rename-h', 'rename-h-file'):
                 ok_, info_ = explained_by_neutral_nterminus(ref, other, params['options'])
